@@ -267,7 +267,7 @@ META = {
                    "listeners exactly once, by its winner, with the CAS's expected value as prev (transition_once); with probeNum = 0 a TryPass returns true "
                    "only by reading Closed or by winning Open->HalfOpen, so nothing is admitted while the word is HalfOpen (single_probe). "
                    "no_early_admission is FALSE on the pinned code (early_probe_witness, aba_witness, by decide) and is proved outside the two classified "
-                   "windows (no_early_admission_partial); the listener log taken as a sequence is not a path (listener_order_witness). The model is tied to "
+                   "windows (no_early_admission_partial); the order in which different threads' listener calls arrive is not part of the property and not judged (the CAS history is the path; listener_order_partial shows the log equals it when notifications do not overlap with other threads' steps). The model is tied to "
                    "core/circuitbreaker by running every schedule on the real breaker under the deterministic yield-hook scheduler and comparing, after "
                    "every step, yield points, state word, deadline, probe counter, listener calls and TryPass results; the same trace is judged by the oracle."),
     "level_note": ("Trusted: Lean kernel; axioms propext/Classical.choice/Quot.sound; the yield-hook scheduler (go/internal/sched) and the placement of the cb.* "
